@@ -115,7 +115,11 @@ func (a *FA) leavesOf(v ssa.Value, blk *ssa.BasicBlock, depth int) []condLeaf {
 	base := unwrapErr(v)
 	p, ok := base.(*ssa.Phi)
 	if !ok || depth > 8 {
-		return []condLeaf{{V: v, Conds: a.Conds(blk), At: blk}}
+		var out []condLeaf
+		for _, cs := range a.CondsDNF(blk, 0) {
+			out = append(out, condLeaf{V: v, Conds: cs, At: blk})
+		}
+		return out
 	}
 	var out []condLeaf
 	for i, e := range p.Edges {
@@ -462,4 +466,29 @@ func taintedSinks(fn *ssa.Function, isSource func(ssa.Value) bool) (map[ssa.Valu
 		}
 	})
 	return tainted, sinks
+}
+
+// CondsDNF: the conditions holding on entry to blk as a disjunction over its
+// incoming paths (merge blocks of `a || b` style tests have no single dominating edge).
+func (a *FA) CondsDNF(blk *ssa.BasicBlock, depth int) [][]Cond {
+	isHeader := false
+	for _, p := range blk.Preds {
+		if blk.Dominates(p) {
+			isHeader = true
+		}
+	}
+	if len(blk.Preds) <= 1 || depth > 4 || isHeader {
+		return [][]Cond{a.Conds(blk)}
+	}
+	var out [][]Cond
+	for _, p := range blk.Preds {
+		for _, cs := range a.CondsDNF(p, depth+1) {
+			set := append(append([]Cond{}, cs...), selfCond(p, blk)...)
+			out = append(out, set)
+			if len(out) > 32 {
+				return [][]Cond{a.Conds(blk)}
+			}
+		}
+	}
+	return out
 }
